@@ -25,6 +25,8 @@ reopened between steps): project-wide renames, random requests of every kind (pe
 retired THROUGH ROPE into the ignored folder, modules replaced OUTSIDE rope by a symbolic link to an out-of-project
 copy followed by project.validate(); and performs under a TaskHandle stopped at notification 0, 1, 2, ... (every
 refused attempt must leave the disk untouched).  P1-P6 are applied after every step.
+  P8 Project.is_ignored answers, for every resource of the world, what the generator built (and, inside Coq, what
+     the pattern model of coq/C09/Ignore.v computes, also for paths that do not exist).
 Correspondence (inside Coq, coq/C09/Runner.v): the change tree rope returned is run by the model (C10's
 history_do / history_undo on the real paths, C09's traced run) on the abstracted disk tree; compared: raised
 flag and exception class, tree after do, trace of mutating primitives (audited vs model), announced set vs
@@ -98,8 +100,12 @@ def gen_requests(rng, world, density):
                     req["dest"] = rng.choice([q for q in pf if q != p] + folders + [""])
                 if kind == "introduce_factory":
                     req["global_"] = rng.random() < 0.4
-                if rng.random() < 0.08:
+                u = rng.random()
+                if u < 0.08:
                     req["stop"] = rng.randrange(0, 6)      # perform under a TaskHandle stopped at that notification
+                    req["no_undo"] = True
+                elif u < 0.16:
+                    req["fault"] = rng.randrange(0, 4)     # the file system refuses that mutating call of the perform
                     req["no_undo"] = True
                 reqs.append(restrict(req))
         if "def mm(" in text:
@@ -173,10 +179,16 @@ def synthetic_requests(rng, world, pf, folders):
         ["CS", "s7", [["MV", some, "moved_" + some.split("/")[-1], False], ["CC", "moved_" + some.split("/")[-1], "q = 0\n"]]],
         ["CC", some, "lonely = 1\n"],
     ]
+    # a later change fails at do() time with an OS-level error: everything done before it must be rolled back
+    E = [
+        ["CS", "e1", [["CC", some, "y = 2\n"], ["MV", other, "nodir/deep/" + other.split("/")[-1], False]]],
+        ["CS", "e2", [["CC", some, "y = 2\n"], ["CR", "e_dir", True], ["CC", "missing_%d.py" % rng.randrange(9), "z = 1\n"]]],
+        ["CS", "e3", [["MV", some, "moved2_" + some.split("/")[-1], False], ["CC", other, "q = 1\n"], ["RM", "no_such.txt", False]]],
+    ]
     for f in folders:
         S.append(["CS", "s8", [["MV", f, f + "2", True], ["CR", f, True]]])
         S.append(["CS", "s9", [["RM", f, True]]])
-    out = []
+    out = [{"kind": "synthetic", "spec": spec, "os_error_expected": True, "no_undo": True} for spec in E]
     for spec in S:
         if rng.random() < 0.8:
             req = {"kind": "synthetic", "spec": spec}
@@ -321,7 +333,8 @@ def judge(world, r):
                             "landed elsewhere)" % (dst, src)))
     # P5
     if r.do_exc is not None:
-        if not r.do_exc["rope_error"]:
+        env = r.do_exc.get("os_error") and (getattr(r, "fault_fired", False) or req.get("os_error_expected"))
+        if not r.do_exc["rope_error"] and not env:       # the refusing file system / a hand-built impossible move:
             bad.append(("P5-perform-crash", "Project.do raised %s: %s" % (r.do_exc["cls"], r.do_exc["msg"])))
         if L.content_view(r.s2) != L.content_view(r.s1):
             bad.append(("P5-perform-not-atomic", "Project.do raised but the tree differs at %s" % ", ".join(
@@ -331,6 +344,7 @@ def judge(world, r):
     # P4
     if r.do_exc is None:
         last = {}
+        newline_of = {}
         for (k, path, desc, new) in r.descriptions:
             if k != "ChangeContents":
                 continue
@@ -342,6 +356,10 @@ def judge(world, r):
                 pre = r.s1.get(os.path.normpath(os.path.join(os.path.dirname(rel), pre[1].decode())).replace(os.sep, "/"))
                 rel = None
             old = pre[1].decode("utf-8") if pre is not None and pre[0] == "f" else ""
+            nl = "\r\n" if "\r\n" in old else ("\r" if "\r" in old else "\n")
+            old = old.replace("\r\n", "\n").replace("\r", "\n")     # rope previews the text with normalised line ends
+            if rel is not None:
+                newline_of[rel] = nl
             try:
                 got = L.apply_unified(old, desc)
             except ValueError as e:
@@ -360,7 +378,9 @@ def judge(world, r):
             if any(rel == q or rel.startswith(q + "/") for q in moved):
                 continue                   # the file was moved (or moved onto) afterwards in the same change
             post = r.s2.get(rel)
-            if post is None or post[0] != "f" or post[1] != new.encode("utf-8"):
+            # the file keeps its line-end convention: every line of the previewed text, with the file's own line ends
+            want = new.replace("\n", newline_of.get(rel, "\n")).encode("utf-8")
+            if post is None or post[0] != "f" or post[1] != want:
                 bad.append(("P4-written", "the bytes written to %s are not the previewed contents" % rel))
     return bad
 
@@ -459,6 +479,8 @@ def request_shape(world, req):
             parts.append(target_kind(text, off))
         if kind == "change_signature":
             parts.append(req.get("changer", "?"))
+        if kind == "introduce_factory":
+            parts.append(name_shape(req.get("new_name")))
     else:
         parts.append("no-offset")
     return ",".join(parts)
@@ -546,6 +568,8 @@ def structural_class(world, r, check):
         shape = request_shape(world, req)
         if "change_signature.py" not in base:
             shape = ",".join(t for t in shape.split(",") if t not in CHANGER_NAMES)
+        if req["kind"] == "introduce_factory" and "introduce_factory.py" not in base:
+            shape = ",".join(t for t in shape.split(",") if not t.endswith("-name"))
         r.crash_shape = (base, shape)
         # inside a session the program text is the product of earlier refactorings: crashes there are attributed by
         # class + frame only (the request-shape narrowing is a property of the one-shot stream on generated worlds)
@@ -629,18 +653,21 @@ def g_path(I, p):
     return g_list([g_N(I.s(x)) for x in p.split("/")])
 
 
-def g_change(I, spec):
+def g_change(I, spec, nl_of=lambda path: "\n"):
+    """`nl_of(rope path)`: the line-end convention of the file on disk; rope keeps it when it writes (the strings in
+    a ChangeContents are normalised to LF), so the model's contents are the bytes really written"""
     k = spec[0]
     if k == "CC":
-        old = "None" if spec[3] is None else "(Some [%s])" % g_N(I.c(spec[3]))
-        return "(CC %s [%s] %s)" % (g_path(I, spec[1]), g_N(I.c(spec[2])), old)
+        nl = nl_of(spec[1])
+        old = "None" if spec[3] is None else "(Some [%s])" % g_N(I.c(spec[3].replace("\n", nl)))
+        return "(CC %s [%s] %s)" % (g_path(I, spec[1]), g_N(I.c(spec[2].replace("\n", nl))), old)
     if k == "MV":
         return "(MV %s %s %s)" % (g_path(I, spec[1]), g_path(I, spec[2]), g_bool(spec[3]))
     if k == "CR":
         return "(CR %s %s)" % (g_path(I, spec[1]), g_bool(spec[2]))
     if k == "RM":
         return "(RM %s %s)" % (g_path(I, spec[1]), g_bool(spec[2]))
-    return "(CS 0%%N %s)" % g_list([g_change(I, c) for c in spec[2]])
+    return "(CS 0%%N %s)" % g_list([g_change(I, c, nl_of) for c in spec[2]])
 
 
 def g_tree(I, snap):
@@ -699,6 +726,8 @@ def g_events(I, base, raw, links=()):
 
 
 def representable(r):
+    if getattr(r, "fault", None) is not None:
+        return False          # injected OS-level refusals: judged by the oracle (the model statement is C10's atomicity)
     links = {p: v for p, v in r.s1.items() if v[0] == "l"}
     root = getattr(r, "root", "proj")
     for l in L.leaves(r.spec):
@@ -721,10 +750,23 @@ def g_case(I, base, r):
     stp = getattr(r, "stop", None)
     links = link_table(base, r.s1)
     g_links = g_list([g_pair(g_path(I, l), g_path(I, t)) for l, t in links])
+    root = getattr(r, "root", "proj")
+
+    moved_from = {}
+    for l in L.leaves(r.spec):            # a file edited after it was moved by the same change keeps its line ends
+        if l[0] == "MV":
+            moved_from[norm(l[2])] = moved_from.get(norm(l[1]), norm(l[1]))
+
+    def nl_of(path):
+        path = moved_from.get(norm(path), path)
+        rel = follow_links(links, os.path.normpath(os.path.join(root, *path.split("/"))).replace(os.sep, "/"))
+        v = r.s1.get(rel)
+        data = v[1] if v is not None and v[0] == "f" else b""
+        return "\r\n" if b"\r\n" in data else ("\r" if b"\r" in data else "\n")
     return ("{| c_root := %s; c_tree := %s; c_change := %s; c_links := %s; c_stp := %s; o_announced := %s; o_compute_writes := %s; "
             "o_raised := %s; o_cls := %s; o_trace := %s; o_tree := %s; o_undone := %s; o_uraised := %s; "
             "o_ucls := %s; o_utrace := %s; o_utree := %s |}" % (
-                g_path(I, getattr(r, "root", "proj")), g_tree(I, r.s1), g_change(I, r.spec), g_links,
+                g_path(I, getattr(r, "root", "proj")), g_tree(I, r.s1), g_change(I, r.spec, nl_of), g_links,
                 "None" if stp is None else "(Some %s)" % g_nat(stp),
                 g_list([g_path(I, a) for a in r.announced]), g_nat(min(len(r.compute_raw), 4000)),
                 g_bool(r.do_exc is not None), g_N(getattr(r, "do_code", 0) if r.do_exc is not None else 0),
@@ -850,6 +892,57 @@ def serve_one(world, req, root=None):
         raise
 
 
+# ------------------------------------------------------------------------------------- ignore patterns
+EXTRA_PATHS = ["gen", "gen/x.py", "gen/a/b/c/x.py", "gen/a/x.txt", "xgen/y.py", "gen2/y.py", "pkg/gen/y.py",
+               "skip", "skipper/z.py", "a/skip/b.txt", "skip.py", "ign_.py", "ign_x.pyc", "pkg/ign_w.py", "ign_dir/x.txt",
+               "x/ign_a.py/y"]
+
+
+def matcher_cases(project, world):
+    """(patterns, resource path, what Project.is_ignored answers) for every non-link resource of the world and a few
+    paths that do not exist; the pattern part of the matcher is modelled in coq/C09/Ignore.v"""
+    paths = sorted(set([p[len("proj/"):] for p in world["files"] if p.startswith("proj/")] + EXTRA_PATHS))
+    pats = list(project.ignored.patterns)
+    out = []
+    for rel in paths:
+        if ("proj/" + rel) in world.get("links", {}):
+            continue
+        out.append((pats, rel, bool(project.is_ignored(project.get_file(rel)))))
+    return out
+
+
+def g_matcher_case(c):
+    pats, rel, obs = c
+    from harness.common import g_text
+    return "(%s, %s, %s)" % (g_list([g_text(p) for p in pats]), g_list([g_text(x) for x in rel.split("/")]), g_bool(obs))
+
+
+def evaluate_matcher(ctx, cases):
+    if not cases:
+        return []
+    body = ("From Coq Require Import List NArith Bool.\nImport ListNotations.\nFrom RopeVerif.C09 Require Import Ignore.\n"
+            "Definition cases : list (list (list N) * list (list N) * bool) := %s.\nEval vm_compute in (ign_report cases).\n"
+            % g_list([g_matcher_case(c) for c in cases]).replace("; (", ";\n ("))
+    nums = ctx.parse_nums(ctx.coq_file(body))
+    if len(nums) != 1 or len(nums[0]) != len(cases):
+        raise RuntimeError("unexpected coqc output for the matcher cases")
+    return nums[0]
+
+
+def matcher_replay(obj):
+    """-> (rope's answer, by-construction answer or None) for one (patterns, path)"""
+    import tempfile
+    from rope.base.project import Project
+    d = tempfile.mkdtemp(prefix="ropeverif-c09-")
+    try:
+        prj = Project(d, ropefolder=None, ignored_resources=list(obj["patterns"]))
+        got = bool(prj.is_ignored(prj.get_file(obj["path"])))
+        prj.close()
+    finally:
+        shutil.rmtree(d, ignore_errors=True)
+    return got
+
+
 # --------------------------------------------------------------------------------------------- sessions
 def current_world(world, snap):
     """the world as it is on disk now (text files only): requests of a session are generated against it"""
@@ -857,7 +950,7 @@ def current_world(world, snap):
     for p, v in snap.items():
         if v[0] == "f":
             try:
-                files[p] = v[1].decode("utf-8")
+                files[p] = v[1].decode("utf-8").replace("\r\n", "\n").replace("\r", "\n")
             except UnicodeDecodeError:
                 pass
     return dict(world, files=files)
@@ -871,7 +964,9 @@ class LiveSession:
               the disk untouched)
         {"op": "retire", "path": p}     the module is moved THROUGH ROPE into the ignored folder skip/
         {"op": "swap", "path": p}       OUTSIDE rope the module is replaced by a symbolic link to an out-of-project
-                                        copy, then project.validate()"""
+                                        copy, then project.validate()
+        {"op": "crlf", "path": p}       OUTSIDE rope the module's line ends become CRLF, libutils.report_change
+        a request with "faults": like "stops", but the file system refuses mutating call 0, 1, 2, ... of the perform"""
 
     def __init__(self, world):
         self.world = world
@@ -893,6 +988,9 @@ class LiveSession:
         if op == "swap":
             L.external_symlink_swap(self.base, self.project, step["path"])
             return []
+        if op == "crlf":
+            L.external_crlf(self.base, self.project, step["path"])
+            return []
         if op == "retire":
             name = step["path"].split("/")[-1]
             req = {"kind": "synthetic", "spec": ["CS", "retire", [["MV", step["path"], "skip/" + name, False]]],
@@ -901,11 +999,12 @@ class LiveSession:
         req = dict(step["req"])
         if not step.get("undo"):
             req["no_undo"] = True
-        if not step.get("stops"):
+        if not step.get("stops") and not step.get("faults"):
             return [self._serve(req)]
         out = []
+        key = "stop" if step.get("stops") else "fault"
         for j in range(0, 14):
-            r = self._serve(dict(req, stop=j, no_undo=True))
+            r = self._serve(dict(req, no_undo=True, **{key: j}))
             out.append(r)
             if r.outcome != "changes" or not r.performed or r.do_exc is None:
                 break
@@ -943,7 +1042,7 @@ def wellformed_request(cur, q):
         return False
     if q["kind"] == "change_signature" and q.get("changer") in ("remove0", "reorder"):
         return False        # would strip / displace `self`: the following steps would work on an ill-formed program
-    return "stop" not in q
+    return "stop" not in q and "fault" not in q
 
 
 def gen_session(rng, world, n_steps):
@@ -954,6 +1053,7 @@ def gen_session(rng, world, n_steps):
     turn = rng.randrange(8)
     retire_at = rng.randrange(2, max(3, n_steps // 2))
     swap_at = rng.randrange(2, max(3, n_steps // 2))
+    crlf_at = rng.randrange(2, max(3, n_steps // 2))
     try:
         for i in range(n_steps):
             cur = live.cur()
@@ -967,12 +1067,18 @@ def gen_session(rng, world, n_steps):
             elif (i == swap_at or u < 0.06) and movable:
                 step = {"op": "swap", "path": rng.choice(movable)}
                 force_global = 4
+            elif (i == crlf_at or u < 0.09) and pf:
+                # a module every project-wide rename edits (it uses a.py's names), or a.py itself
+                step = {"op": "crlf", "path": rng.choice([q for q in pf if q != "bad.py"] or pf)}
+                force_global = 4
             elif force_global > 0:
                 force_global -= 1
                 turn += 1
                 req = global_rename_request(rng, cur, turn)
                 if req is not None:
-                    step = {"op": "request", "req": req, "undo": False, "stops": rng.random() < 0.7}
+                    mode = rng.random()
+                    step = {"op": "request", "req": req, "undo": False, "stops": mode < 0.45,
+                            "faults": 0.45 <= mode < 0.8}
             if step is None:
                 cands = [q for q in gen_requests(rng, cur, 0.3) if q["kind"] != "multi"
                          and not (q["kind"] == "synthetic" and q.get("no_undo"))]
@@ -986,7 +1092,9 @@ def gen_session(rng, world, n_steps):
                         break
                 if pick is None:
                     break
-                step = {"op": "request", "req": pick, "undo": rng.random() < 0.3, "stops": rng.random() < 0.6}
+                mode = rng.random()
+                step = {"op": "request", "req": pick, "undo": rng.random() < 0.3, "stops": mode < 0.4,
+                        "faults": 0.4 <= mode < 0.7}
             records = live.step(step)
             steps.append(step)
             yield list(steps), cur, records
@@ -1041,6 +1149,10 @@ def signature(obj):
 
 
 def replay(ctx, obj):
+    if obj.get("kind") == "matcher":
+        got = matcher_replay(obj)
+        w = evaluate_matcher(ctx, [(obj["patterns"], obj["path"], got)])
+        return bool(w[0]) or (obj.get("expected") is not None and got != obj["expected"])
     if obj.get("kind") == "session":
         want = obj.get("check")
         for cur, r in replay_session(obj["world"], obj["steps"]):
@@ -1090,6 +1202,7 @@ def run(ctx):
     n_req = 0
     crash_groups = {}
     crash_shapes = {}
+    ign_cases = []
 
     def handle_record(world, req, r, base, mk_replay, tag=""):
         nontrivial = r.outcome == "changes" and r.performed and bool(L.leaves(r.spec))
@@ -1104,6 +1217,8 @@ def run(ctx):
             ctx.count("perform:%s" % ("raised" if r.do_exc else "ok"))
             if getattr(r, "stop", None) is not None:
                 ctx.count("perform_under_stopped_handle:%s" % ("refused" if r.do_exc else "went through"))
+            if getattr(r, "fault", None) is not None:
+                ctx.count("perform_on_refusing_file_system:%s" % ("refused" if r.do_exc else "went through"))
             ctx.count("leaves:%d" % min(len(L.leaves(r.spec)), 6))
             for l in L.leaves(r.spec):
                 ctx.count("leaf:%s" % l[0])
@@ -1144,6 +1259,15 @@ def run(ctx):
             ctx.count("world_with_unparsable_module%s" % ("_ignored" if world.get("prefs") else ""))
         sess = Session(world)
         try:
+            for c in matcher_cases(sess.project, world):
+                ign_cases.append(c)
+                # independent oracle: the generator knows which of ITS resources are ignored
+                exp = L.is_ignored_by_construction("proj/" + c[1]) if ("proj/" + c[1]) in world["files"] else None
+                if exp is not None and exp != c[2]:
+                    ctx.violation({"kind": "matcher", "patterns": c[0], "path": c[1], "expected": exp,
+                                   "class": "matcher: Project.is_ignored(%s) is %s" % (c[1], c[2])},
+                                  "C09 P8-ignored: Project.is_ignored(<%s>) answers %s with ignored_resources=%r"
+                                  % (c[1], c[2], c[0]))
             for req in reqs:
               rs = sess.serve_all(req)
               n_req += 1
@@ -1165,7 +1289,7 @@ def run(ctx):
         if ctx.too_many(12):
             break
     # ---- multi-step sessions on one live project
-    n_sessions = ctx.scale(24, 90)          # short sessions: the text stays close to a generated world
+    n_sessions = ctx.scale(20, 90)          # short sessions: the text stays close to a generated world
     n_steps = ctx.scale(18, 24)
     n_session_steps = 0
     for si in range(n_sessions):
@@ -1176,7 +1300,7 @@ def run(ctx):
         for steps, cur, records in gen_session(ctx.rng, world, n_steps):
             n_session_steps += 1
             step = steps[-1]
-            ctx.count("session_step:%s" % (step["op"] + ("+stops" if step.get("stops") else "")))
+            ctx.count("session_step:%s" % (step["op"] + ("+stops" if step.get("stops") else "+faults" if step.get("faults") else "")))
             if step["op"] == "request":
                 ctx.count("kind:%s" % step["req"]["kind"])
             for r in records:
@@ -1191,6 +1315,19 @@ def run(ctx):
     ctx.extra["crash_groups_seen"] = crash_groups
     ctx.extra["crash_shapes_seen"] = {k: sorted(v) for k, v in crash_shapes.items()}
 
+    # ---- correspondence inside Coq: the ignore-pattern matcher
+    seen_ign = {}
+    for c in ign_cases:
+        seen_ign[(tuple(c[0]), c[1])] = c
+    uniq = list(seen_ign.values())
+    for c, w in zip(uniq, evaluate_matcher(ctx, uniq)):
+        ctx.case(("matcher", c[0], c[1]), nontrivial=c[2])
+        if w:
+            ctx.violation({"kind": "matcher", "patterns": c[0], "path": c[1], "expected": not c[2],
+                           "class": "matcher: model and rope differ on %s" % c[1]},
+                          "C09: Project.is_ignored(<%s>) = %s differs from the pattern model (coq/C09/Ignore.v) for %r"
+                          % (c[1], c[2], c[0]))
+    ctx.extra["matcher_cases"] = len(uniq)
     # ---- correspondence inside Coq
     words = evaluate(ctx, terms)
     in_domain = 0
